@@ -224,4 +224,153 @@ func c09ExtFacts(e *ext) {
 		}
 	}
 	fmt.Fprintf(&e.out, "def prepareDeleteCond : String := %s\n", leanStr(cond))
+	c09Ext3Facts(e)
+}
+
+// ---- extension 3: the NodeResource threaded through the reconcile ----
+
+func c09Render(x ast.Expr) string {
+	switch v := x.(type) {
+	case *ast.Ident:
+		return v.Name
+	case *ast.SelectorExpr:
+		return c09Render(v.X) + "." + v.Sel.Name
+	case *ast.StarExpr:
+		return "*" + c09Render(v.X)
+	case *ast.UnaryExpr:
+		return v.Op.String() + c09Render(v.X)
+	case *ast.IndexExpr:
+		return c09Render(v.X) + "[" + c09Render(v.Index) + "]"
+	case *ast.BasicLit:
+		return v.Value
+	case *ast.CallExpr:
+		return c09Render(v.Fun) + "()"
+	case *ast.BinaryExpr:
+		return c09Render(v.X) + v.Op.String() + c09Render(v.Y)
+	case *ast.ParenExpr:
+		return "(" + c09Render(v.X) + ")"
+	}
+	return "?"
+}
+
+func c09Ext3Facts(e *ext) {
+	rd := "pkg/slo-controller/noderesource"
+	// 1. how often one reconcile runs the prepare chain: call sites of prepareNodeResource per function
+	for _, fn := range []string{"updateNodeResource", "updateNodeStatus", "updateNodeMeta"} {
+		n := 0
+		calls := []string{}
+		if fd := e.funcDecl(rd, "NodeResourceReconciler", fn); fd == nil {
+			e.fail("%s not found", fn)
+		} else {
+			ast.Inspect(fd.Body, func(x ast.Node) bool {
+				if c, ok := x.(*ast.CallExpr); ok {
+					if se, ok := c.Fun.(*ast.SelectorExpr); ok {
+						if se.Sel.Name == "prepareNodeResource" {
+							n++
+						}
+						// what is sent to the API server: r.Client.X(...) / r.Client.Status().X(...)
+						r := c09Render(se)
+						if strings.HasPrefix(r, "r.Client.") && se.Sel.Name != "Status" && se.Sel.Name != "Get" {
+							calls = append(calls, strings.TrimPrefix(r, "r.Client."))
+						}
+					}
+				}
+				return true
+			})
+		}
+		fmt.Fprintf(&e.out, "def prepareCallsIn_%s : Nat := %d\n", fn, n)
+		sort.Strings(calls)
+		c09StrList(e, "clientWritesIn_"+fn, calls)
+	}
+	// prepareNodeResource itself runs the chain once
+	n := 0
+	if fd := e.funcDecl(rd, "NodeResourceReconciler", "prepareNodeResource"); fd == nil {
+		e.fail("prepareNodeResource not found")
+	} else {
+		ast.Inspect(fd.Body, func(x ast.Node) bool {
+			if c, ok := x.(*ast.CallExpr); ok && c09ExprName(c.Fun) == "RunNodePrepareExtenders" {
+				n++
+			}
+			return true
+		})
+	}
+	fmt.Fprintf(&e.out, "def prepareChainRunsPerCall : Nat := %d\n", n)
+	// 2. PrepareNodeForResource: what is written through the stored pointer / into the NodeResource, where the amplified
+	//    quantity goes, which methods are called on q, the amplification guard
+	through := []string{}
+	ampTarget := "?"
+	ampRebind := "?"
+	methods := map[string]bool{}
+	guard := "?"
+	if fd := e.funcDecl("pkg/slo-controller/noderesource/plugins/util", "", "PrepareNodeForResource"); fd != nil {
+		ast.Inspect(fd.Body, func(x ast.Node) bool {
+			switch v := x.(type) {
+			case *ast.AssignStmt:
+				for i, l := range v.Lhs {
+					ls := c09Render(l)
+					if strings.HasPrefix(ls, "*") || strings.HasPrefix(ls, "nr.") {
+						through = append(through, ls)
+					}
+					if i < len(v.Rhs) {
+						rs := c09Render(v.Rhs[i])
+						if strings.Contains(rs, "MultiplyMilliQuant") {
+							ampTarget = ls + v.Tok.String()
+						}
+						if ls == "q" && v.Tok == token.ASSIGN {
+							ampRebind = "q=" + rs
+						}
+					}
+				}
+			case *ast.IncDecStmt:
+				if ls := c09Render(v.X); strings.HasPrefix(ls, "*") || strings.HasPrefix(ls, "nr.") {
+					through = append(through, ls)
+				}
+			case *ast.CallExpr:
+				if se, ok := v.Fun.(*ast.SelectorExpr); ok {
+					if id, ok := se.X.(*ast.Ident); ok && id.Name == "q" {
+						methods[se.Sel.Name] = true
+					}
+				}
+			case *ast.IfStmt:
+				if b, ok := v.Cond.(*ast.BinaryExpr); ok {
+					if id, ok := b.X.(*ast.Ident); ok && id.Name == "ratio" {
+						guard = c09Render(b)
+					}
+				}
+			}
+			return true
+		})
+	}
+	sort.Strings(through)
+	c09StrList(e, "prepareWritesThroughNR", through)
+	_, _ = ampTarget, ampRebind // names of locals are not facts the model relies on
+	ms := []string{}
+	for m := range methods {
+		ms = append(ms, m)
+	}
+	sort.Strings(ms)
+	c09StrList(e, "prepareQuantityMethods", ms)
+	_ = guard // `ratio > 1.0` vs `>= 1.0` is not observable (x 1.0); covered behaviourally by the exhaustive prepare stream
+	// 3. prepare order of the plugins (package names of the composite literal elements)
+	order := []string{}
+	if x, ok := e.valueSpec(rd, "nodePreparePlugins"); !ok {
+		e.fail("nodePreparePlugins not found")
+	} else if cl, ok := x.(*ast.CompositeLit); ok {
+		for _, el := range cl.Elts {
+			if u, ok := el.(*ast.UnaryExpr); ok {
+				if c, ok := u.X.(*ast.CompositeLit); ok {
+					if se, ok := c.Type.(*ast.SelectorExpr); ok {
+						order = append(order, c09Render(se.X))
+					}
+				}
+			}
+		}
+	}
+	c09StrList(e, "nodePrepareOrder", order)
+	// 4. the epsilon of IsCPUNormalizationRatioDifferent and its two strict comparisons
+	eps := "?"
+	if x, ok := e.valueSpec("apis/extension", "NormalizationRatioDiffEpsilon"); ok {
+		eps = c09Render(x)
+	}
+	fmt.Fprintf(&e.out, "def ratioDiffEpsilon : String := %s\n", leanStr(eps))
 }
